@@ -8,7 +8,8 @@ From AV Require Import Base.Bytes Base.Outcome Hash.HashModel Tree.Heap Tree.Ops
   Tree.InvProofsBase Tree.InvProofsCore Tree.InvProofsTree Tree.InvProofsPrim Tree.InvProofsRemove Tree.InvProofsFiles
   Tree.InvProofsNav Tree.Load Tree.InvLoad Tree.InvProofsLoadBase Tree.InvProofsLoadWalk Tree.InvProofsLoadMerge
   Tree.InvProofsLoad Tree.InvProofsLoadSim Tree.InvProofsLoadRoll Tree.InvProofsLoadLive.
-From AV Require Xml.Parser Tree.LoadProofs Tree.LoadResidue.
+From AV Require Import Tree.InvProofsFrame Tree.InvProofsChars Tree.InvProofsChars2 Tree.InvProofsOrigins Tree.InvProofsOrigins3 Tree.InvEBase.
+From AV Require Xml.Parser Tree.LoadProofs Tree.LoadResidue Tree.LoadEffects.
 Open Scope string_scope.
 Open Scope list_scope.
 Open Scope N_scope.
@@ -106,6 +107,92 @@ Proof.
     + exfalso. destruct Hl as (n & Hn & _). assert (allocated wr p) as Ha by (eexists; eauto).
       apply Ral in Ha. apply (MI_alloc _ _ _ _ _ _ _ _ M) in Ha. lia.
     + apply killedb_kept. apply Hkeep. apply Hkeep in Hp. econstructor; eauto.
+Qed.
+
+
+Lemma contenteff_elems a b : LoadEffects.ContentEff a b -> forall c, In c (elems a) -> In c (elems b).
+Proof.
+  induction 1 as [c0|c0 k x c' H IH]; intros c Hc; auto. apply IH. apply elems_insert_in. right. exact Hc.
+Qed.
+Lemma WorldEff_lists nf w w' : LoadEffects.WorldEff nf w w' -> forall p c, lists w p c -> lists w' p c.
+Proof.
+  intros (_ & _ & _ & Hj) p c (n & Hn & Hc). specialize (Hj p). rewrite Hn in Hj.
+  destruct (w_nodes w' p) as [n'|] eqn:E'; [|contradiction]. exists n'. split; [exact E'|].
+  unfold kids in *. eapply contenteff_elems; [apply Hj|exact Hc].
+Qed.
+
+(* the three other invariants after rollback and kill *)
+Lemma rollback_kill_real base rt re w1 D Imp wm fid rr wr fuel keep wq rk wk :
+  Core w1 -> rt < base -> (exists k, nth_error (roots w1) k = Some rt) ->
+  MI base rt re w1 D Imp wm ->
+  (forall k r0, nth_error (roots w1) k = Some r0 -> r0 < base) ->
+  (forall c p, c < base -> par w1 c p -> p < base) ->
+  (forall c p, c < base -> par wm c p -> lists wm p c) ->
+  CharsLeaf T wm -> OriginsRef T wm ->
+  wtry (e_remove_from_file T rt fid) wm = Val (rr, wr) ->
+  dfs_ids fuel rt wr = Val (OK keep, wq) -> kill_unreachable base keep wr = Val (rk, wk) ->
+  NoOrphanP wk /\ CharsLeaf T wk /\ OriginsRef T wk.
+Proof.
+  intros Cw1 Hr Hroot M Hroots Hold_up HoldO CLm ORm Hrb Hd Hk.
+  assert (CLr : CharsLeaf T wr).
+  { eapply CharsLeaf_frame; [|exact CLm]. eapply (frp_try _ _ _ (cfp_e_remove_from_file T rt fid)); eauto. }
+  assert (ORr : OriginsRef T wr).
+  { eapply OriginsRef_orel; [eapply (frp_try _ _ _ (cfp_e_remove_from_file T rt fid)); eauto| |exact ORm].
+    apply orel_osub. eapply (osp_try _ (osp_e_remove_from_file T rt fid)); eauto. }
+  destruct (kill_tkeep _ _ _ _ _ Hk) as (TKk & Hmk).
+  split; [|split; [eapply kill_chars; eauto|eapply OriginsRef_keep; [apply osub_models; exact Hmk|exact TKk|exact ORr]]].
+  apply wtry_inv in Hrb as (r0 & Hrb & _).
+  set (G := fun x => Reach wm rt x).
+  assert (HGD : forall i, G i -> ~ In i D) by (intros i Hi; eapply MI_reach_good; eauto).
+  assert (GCm : GC G wm).
+  { intros i n Hi Hn. split.
+    - intros p Hp. unfold G. eapply (MI_reach_up base rt re w1 Hr Hroot); [exact M| |exact Hi].
+      eapply A_up; [exists n; eauto|constructor].
+    - intros c Hc. unfold G. econstructor; [exact Hi|]. exists n. auto. }
+  assert (Grt : G rt) by (constructor; eapply MI_root_alloc; eauto).
+  destruct (sim_e_remove_from_file D G HGD T rt fid Grt wm (mask D wm) _ _ (agr_mask D wm) GCm Hrb)
+    as (w2' & Hrun2 & Agr & _ & _).
+  pose proof (mi_core _ _ _ _ _ _ _ M) as Cm.
+  pose proof (proj1 (Pres_e_remove_from_file T rt fid _ _ _ Hrun2 Cm)) as C2'.
+  pose proof (RSp_e_remove_from_file T rt rt fid _ _ _ Cm Hrun2) as (_ & _ & _ & RS4).
+  pose proof (RemEff_facts _ _ _ (LoadResidue.rem_e_remove_from_file T fid rt _ _ _ Hrb)) as (Rn & Rr & Ral & Rl & Rp).
+  destruct Agr as (An & Af & Am & Aj).
+  assert (Smask : same_tree w2' (mask D wr)).
+  { split; [cbn; rewrite An; reflexivity|]. split.
+    - unfold roots. cbn [w_models mask]. rewrite Am. reflexivity.
+    - intros i. unfold skel. cbn [w_nodes mask]. rewrite Aj. reflexivity. }
+  assert (Cr : Core (mask D wr)) by (eapply Core_same_tree; [exact Smask|exact C2']).
+  assert (Oldp : forall c p, c < base -> par wm c p -> p < base).
+  { intros c p Hc Hp. eapply Hold_up; [exact Hc|]. apply par_parent_in. apply par_parent_in in Hp as (Ha & Hpp). split.
+    - apply (c_alloc _ Cw1). rewrite <- (mi_next _ _ _ _ _ _ _ M). apply (MI_alloc _ _ _ _ _ _ _ _ M). exact Ha.
+    - rewrite <- (mi_par _ _ _ _ _ _ _ M); [exact Hpp|]. intros Hin. apply (mi_imp _ _ _ _ _ _ _ M) in Hin as (Hb & _). lia. }
+  assert (Om : OrphE (mask D wm) (fun y => base <= y)).
+  { intros c p Hp0. pose proof (proj1 (par_mask D wm c p) Hp0) as Hp. destruct (N.lt_ge_cases c base) as [Hc|Hc]; [|right; exact Hc].
+    left. apply lists_mask. split; [apply HoldO; [exact Hc|exact Hp]|]. apply inb_notin. intros Hin.
+    apply (mi_dup _ _ _ _ _ _ _ M) in Hin as (Hb & _). pose proof (Oldp _ _ Hc Hp). lia. }
+  assert (Or : OrphE (mask D wr) (fun y => base <= y)) by (eapply OrphE_same_tree; [exact Smask|apply RS4; exact Om]).
+  pose proof (dfs_ids_keep _ _ _ _ _ Hd) as Hkeep.
+  assert (Hreach_back : forall x, Reach wr rt x -> Reach wm rt x).
+  { apply reach_mono; [intros i; apply Ral|exact Rl]. }
+  pose proof (kill_spec _ _ _ _ _ Hk) as (_ & _ & _ & _ & Hkn).
+  intros c p (nc & Hnc & Hpc). rewrite Hkn in Hnc.
+  destruct (killedb base keep wr c) eqn:Kc.
+  { destruct (w_nodes wr c); [|discriminate]. cbn in Hnc. injection Hnc as <-. discriminate Hpc. }
+  assert (Hp0 : par wr c p) by (exists nc; auto).
+  assert (Fin : lists wr p c /\ killedb base keep wr p = false).
+  { destruct (killedb_false _ _ _ _ Kc) as [Hc|[Hc|Hc]].
+    - destruct (Or c p) as [Hl|Hb]; [apply par_mask; exact Hp0| |lia].
+      apply lists_mask in Hl as (Hl & _). split; auto. apply killedb_old. eapply Oldp; [exact Hc|]. apply Rp. exact Hp0.
+    - exfalso. assert (allocated wr c) as Ha by (eexists; eauto). apply Ral in Ha.
+      apply (MI_alloc _ _ _ _ _ _ _ _ M) in Ha. lia.
+    - apply Hkeep in Hc. destruct Hc as [Ha|q c Hrq Hlc].
+      + exfalso. destruct Hroot as (k & Hk0). rewrite <- (mi_roots _ _ _ _ _ _ _ M), <- Rr, <- (roots_mask D) in Hk0.
+        destruct (c_roots _ Cr _ _ Hk0) as (n0 & Hn0 & Hpm). apply (par_mask D) in Hp0. destruct Hp0 as (n1 & Hn1 & Hp1). congruence.
+      + assert (HqD : ~ In q D) by (eapply (MI_reach_good base rt re w1 Hr); [exact M|apply Hreach_back; exact Hrq]).
+        assert (Hpq : par wr c q).
+        { apply (par_mask D). apply (c_up _ Cr). apply lists_mask. split; auto. apply inb_notin. auto. }
+        rewrite (par_fun _ _ _ _ Hp0 Hpq). split; auto. apply killedb_kept. apply Hkeep. exact Hrq. }
+  destruct Fin as ((np & Hnp & Hin) & Kp). exists np. split; auto. rewrite Hkn, Kp. exact Hnp.
 Qed.
 
 (* ---------- load_parsed, every result ---------- *)
@@ -227,5 +314,150 @@ Proof.
   rewrite Hroot3 in E10.
   eapply (rollback_kill_core base rt re w2 D' Imp' wb _ _ wr _ keep wr _ wk Hr_old (ex_intro _ _ Hr_root) Mb); eauto.
 Qed.
+
+Lemma load_parsed_real_full m filename root st w r w' :
+  RealInvL T w -> EChars T root -> ERefs T root (Parser.p_refs st) ->
+  (forall t w1 x, install PNone root w = Val (OK t, w1) ->
+     let w2 := mkWorld (w_nodes w1) (w_next w1)
+                       (w_files w1 ++ [mkFile m filename (Parser.p_version st) (Parser.p_standalone st)]) (w_models w1) in
+     nth_opt (w_models w2) (N.to_nat m) = Some x -> is_empty (m_files x) = false ->
+     merge_shared T LATEST name_definition_ref (fuel_of w2) (m_root x) (fold_right set_add [] (m_files x)) (it_id t)
+                  (N.of_nat (List.length (w_files w))) w2 = false) ->
+  load_parsed T LATEST name_definition_ref m filename root st w = Val (r, w') -> RealInvL T w'.
+Proof.
+  intros I EC ERf Hshared H. pose proof H as H0. pose proof I as ((C & O) & CL & OR). unfold load_parsed in H.
+  bstep H w0 wx E0; [|apply wget_inv in E0 as ([=] & _)]. apply wget_inv in E0 as ([= ->] & ->).
+  bstep H t w1 E1.
+  2:{ destruct (install_core _ _ _ _ _ C (or_introl eq_refl) E1) as (t' & [=] & _). }
+  destruct (install_core _ _ _ _ _ C (or_introl eq_refl) E1) as (t' & [= <-] & Eid & C1 & L1 & R1 & F1 & (nr & Hnr & Pnr) & Cl1).
+  pose proof (Hshared t w1) as Hsh.
+  destruct (install_extra T _ _ _ _ _ C (or_introl eq_refl) E1) as (X1 & X2 & X3).
+  pose proof (LoadProofs.above_install (w_next w) _ _ _ _ _ (N.le_refl _) E1) as (_ & _ & _ & Hm1).
+  assert (O1 : NoOrphanP w1).
+  { apply NoOrphanP_OrphSubE. eapply OrphE_weaken; [|apply X1; apply NoOrphanP_OrphSubE; exact O].
+    cbn beta. intros x [[]|(_ & Hne)]. congruence. }
+  assert (CL1 : CharsLeaf T w1) by (apply X2; auto).
+  set (base := w_next w) in *. set (re := it_id t) in *.
+  bstep H w1' wx E2; [|apply wget_inv in E2 as ([=] & _)]. apply wget_inv in E2 as ([= ->] & ->).
+  bstep H x0 wx E3; [|apply get_model_inv in E3 as (? & _ & [=] & _)]. apply get_model_inv in E3 as (x0' & Hx0 & [= ->] & ->).
+  bstep H ov wx E4; [|apply wl_inv in E4 as (? & _ & [=] & _)]. apply wl_inv in E4 as (ov' & _ & [= ->] & ->).
+  assert (Hroots_old : forall k r0, nth_error (roots w1) k = Some r0 -> r0 < base).
+  { intros k r0 Hk. rewrite R1 in Hk. destruct (c_roots _ C _ _ Hk) as (n & Hn & _). apply C. eexists; eauto. }
+  destruct ov'.
+  { (* overlap *)
+    bstep H u wk Ek; [|apply kill_spec in Ek as ([=] & _)].
+    apply wfail_inv in H as (-> & _).
+    apply (load_parsed_real T LATEST name_definition_ref m filename root st w (ER OverlappingDataError) w' I EC ERf Hshared); [discriminate|exact H0]. }
+  bstep H u w2 E5; [|apply wput_inv in E5 as ([=] & _)]. apply wput_inv in E5 as (_ & ->).
+  set (w2 := mkWorld _ _ _ _) in *.
+  assert (S12 : same_tree w1 w2) by (apply st_models; reflexivity).
+  pose proof (Core_same_tree _ _ S12 C1) as C2.
+  bstep H x wx E6; [|apply get_model_inv in E6 as (? & _ & [=] & _)]. apply get_model_inv in E6 as (x' & Hx & [= ->] & ->).
+  bstep H rb w3 E7; [|apply wcatch_inv in E7 as (? & _ & [=])]. apply wcatch_inv in E7 as (rb' & E7 & [= ->]).
+  bstep H x3 wx E8; [|apply get_model_inv in E8 as (? & _ & [=] & _)]. apply get_model_inv in E8 as (x3' & Hx3 & [= ->] & ->).
+  bstep H w3' wx E9; [|apply wget_inv in E9 as ([=] & _)]. apply wget_inv in E9 as ([= ->] & ->).
+  bstep H keep wq E10; [|exfalso; exact (LoadProofs.errs_dfs_ids (fun _ => False) _ _ _ _ _ E10)].
+  pose proof (ro_dfs_ids _ _ _ _ _ E10) as ->.
+  bstep H u2 wk E11; [|apply kill_spec in E11 as ([=] & _)].
+  destruct rb' as [ub|eb].
+  { apply wret_inv in H as (-> & _).
+    apply (load_parsed_real T LATEST name_definition_ref m filename root st w (OK (N.of_nat (List.length (w_files w)))) w' I EC ERf Hshared); [discriminate|exact H0]. }
+  (* the stage failed *)
+  apply wbind_inv in H as [(u3 & w5 & E12 & H) | (ee1 & E12 & _)]; [|discriminate E12].
+  apply wfail_inv in H as (_ & ->).
+  assert (Cfin : Core w5) by (eapply (load_parsed_core_full m filename root st w _ w5 C Hshared); exact H0).
+  destruct (drop_file_keep T _ _ _ _ E12) as (Sdrop & TKd & Hmd & CLd).
+  cut (NoOrphanP wk /\ CharsLeaf T wk /\ OriginsRef T wk).
+  { intros (A & B & D0). split; [split; [exact Cfin|eapply NoOrphanP_same_tree; eauto]|split; [auto|]].
+    eapply OriginsRef_keep; [apply osub_models; exact Hmd|exact TKd|exact D0]. }
+  clear H0 E12 Sdrop TKd Hmd CLd Cfin.
+  (* where the error comes from *)
+  apply wbind_inv in E7 as [(ua & wa & Ea & Etail) | (ee2 & Ea & _)].
+  { exfalso. apply wbind_inv in Etail as [(ui & wi & Ei & Etail) | (ee3 & Ei & _)].
+    2:{ exact (LoadProofs.errs_fill_identifiables (fun _ => False) _ _ _ _ _ _ Ei). }
+    apply wbind_inv in Etail as [(ur & wr & Er & Etail) | (ee4 & Er & _)].
+    2:{ exact (LoadProofs.errs_fill_references (fun _ => False) _ _ _ _ _ _ Er). }
+    apply modify_model_inv in Etail as (? & _ & [=] & _). }
+  destruct (is_empty (m_files x')) eqn:Efirst.
+  { exfalso. apply wbind_inv in Ea as [(u5 & w6 & A1 & Ea) | (ee5 & A1 & _)]; [|apply modify_node_wset in A1 as (? & _ & [=] & _)].
+    apply wbind_inv in Ea as [(u6 & w7 & A2 & Ea) | (ee6 & A2 & _)]; [|apply modify_node_wset in A2 as (? & _ & [=] & _)].
+    apply modify_model_inv in Ea as (? & _ & [=] & _). }
+  apply wbind_inv in Ea as [(mr & wb & Em & Ea) | (ee7 & Em & _)]; [|apply wcatch_inv in Em as (? & _ & [=])].
+  apply wcatch_inv in Em as (mr' & Em & [= ->]).
+  destruct mr' as [um|em]; [apply wret_inv in Ea as ([=] & _)|].
+  apply wbind_inv in Ea as [(x1 & w6 & Ex1 & Ea) | (ee8 & Ex1 & _)]; [|apply get_model_inv in Ex1 as (? & _ & [=] & _)].
+  apply get_model_inv in Ex1 as (x1' & Hx1 & [= ->] & ->).
+  apply wbind_inv in Ea as [(urb & wr & Erb & Ea) | (ee9 & Erb & _)]; [|apply wtry_inv in Erb as (? & _ & [=])].
+  apply wfail_inv in Ea as (_ & ->).
+  (* the merge stopped somewhere: the invariant holds there *)
+  pose proof Em as Em0.
+  unfold merge_file_data in Em.
+  apply wbind_inv in Em as [(xm & wm0 & Em1 & Em) | (ee10 & Em1 & _)]; [|apply get_model_inv in Em1 as (? & _ & [=] & _)].
+  apply get_model_inv in Em1 as (xm' & Hxm & [= ->] & ->).
+  rewrite Hx in Hxm. injection Hxm as <-.
+  apply wbind_inv in Em as [(wg & wm0 & Em2 & Em) | (ee11 & Em2 & _)]; [|apply wget_inv in Em2 as ([=] & _)].
+  apply wget_inv in Em2 as ([= ->] & ->).
+  assert (Eme : exists rme, merge_element T LATEST name_definition_ref (fuel_of w2) (m_root x')
+                   (fold_right set_add [] (m_files x')) re (N.of_nat (List.length (w_files w))) w2 = Val (rme, wb)).
+  { apply wbind_inv in Em as [(ue & we & Eme & Em) | (ee12 & Eme & _)]; [|eauto]. exfalso.
+    apply wbind_inv in Em as [(x2 & wm0 & Em3 & Em) | (ee13 & Em3 & _)]; [|apply get_model_inv in Em3 as (? & _ & [=] & _)].
+    apply modify_node_wset in Em as (? & _ & [=] & _). }
+  destruct Eme as (rme & Eme).
+  set (rt := m_root x').
+  assert (Hr_root : nth_error (roots w2) (N.to_nat m) = Some rt) by (apply nth_opt_roots; exact Hx).
+  assert (Hr_old : rt < base) by (eapply Hroots_old; rewrite <- Hr_root; reflexivity).
+  assert (Hold_up : forall c p, c < base -> par w2 c p -> p < base).
+  { intros c p Hc Hp. apply (proj1 (st_par _ _ _ _ S12)) in Hp.
+    assert (Hp0 : par w c p). { destruct Hp as (n & Hn & Hpp). rewrite F1 in Hn by auto. exists n. auto. }
+    apply par_alloc in Hp0; auto. apply C. auto. }
+  assert (Hrb : parent_in w2 re = PNone).
+  { unfold parent_in. cbn [w_nodes w2]. rewrite Eid. rewrite Hnr. exact Pnr. }
+  assert (Hnew_up : forall c p, base <= c -> par w2 c p -> base <= p).
+  { intros c p Hc Hp. apply (proj1 (st_par _ _ _ _ S12)) in Hp. destruct (N.eq_dec c base) as [->|Hne].
+    - destruct Hp as (n & Hn & Hpp). rewrite Hnr in Hn. injection Hn as <-. congruence.
+    - apply (Cl1 c p); auto. lia. }
+  assert (M0 : MI base rt re w2 [] [] w2).
+  { constructor.
+    - apply Core_mask. exact C2.
+    - reflexivity.
+    - reflexivity.
+    - intros p d _ [].
+    - intros d [].
+    - reflexivity.
+    - reflexivity.
+    - intros y [].
+    - intros c p Hc Hp. left. eapply Hnew_up; eauto. }
+  assert (Hrr : Reach w2 rt rt).
+  { constructor. destruct (c_roots _ C2 _ _ Hr_root) as (n & Hn & _). eexists; eauto. }
+  destruct (merge_any T LATEST name_definition_ref base rt re w2 C2 Hr_old (ex_intro _ _ Hr_root) Hold_up Hrb
+                      (fuel_of w2) rt (fold_right set_add [] (m_files x')) re (N.of_nat (List.length (w_files w)))
+                      [] [] w2 rme wb M0 Hrr) as (D' & Imp' & Mb);
+    [intros []|intros []|rewrite Eid; apply N.le_refl|left; reflexivity|apply Hsh; auto|exact Eme|].
+  assert (Hroot1 : m_root x1' = rt).
+  { apply nth_opt_roots in Hx1. rewrite (mi_roots _ _ _ _ _ _ _ Mb), Hr_root in Hx1. congruence. }
+  rewrite Hroot1 in Erb.
+  assert (Hroot3 : m_root x3' = rt).
+  { apply nth_opt_roots in Hx3.
+    pose proof Erb as Erb'. apply wtry_inv in Erb' as (r1 & Erb' & _).
+    destruct (RemEff_facts _ _ _ (LoadResidue.rem_e_remove_from_file T _ rt _ _ _ Erb')) as (_ & Rr & _).
+    rewrite Rr, (mi_roots _ _ _ _ _ _ _ Mb), Hr_root in Hx3. congruence. }
+  rewrite Hroot3 in E10.
+  assert (TK1 : tkeep w w1).
+  { intros i n Hn. assert (allocated w i) as Ha by (eexists; eauto). apply C in Ha. rewrite F1 by exact Ha. eauto. }
+  assert (OR2 : OriginsRef T w2).
+  { eapply OriginsRef_keep; [apply osub_models; exact Hm1|exact TK1|exact OR]. }
+  assert (J2 : NoOrphanP w2 /\ CharsLeaf T w2) by (apply (J_nodes T w1); [reflexivity|split; auto]).
+  destruct J2 as (O2 & CL2).
+  pose proof (LoadEffects.merge_file_data_effects T LATEST name_definition_ref m re _ _ _ _ Em0) as WE.
+  destruct (WorldEff_keep _ _ _ WE) as (TKb & Hmb).
+  eapply (rollback_kill_real base rt re w2 D' Imp' wb _ _ wr _ keep wr _ wk C2 Hr_old (ex_intro _ _ Hr_root) Mb); eauto.
+  - intros c p Hc Hp. apply (WorldEff_lists _ _ _ WE). apply O2.
+    apply par_parent_in. apply par_parent_in in Hp as (Ha & Hpp). split.
+    + apply (c_alloc _ C2). rewrite <- (mi_next _ _ _ _ _ _ _ Mb). apply (MI_alloc _ _ _ _ _ _ _ _ Mb). exact Ha.
+    + rewrite <- (mi_par _ _ _ _ _ _ _ Mb); [exact Hpp|]. intros Hin. apply (mi_imp _ _ _ _ _ _ _ Mb) in Hin as (Hb & _). lia.
+  - eapply CAny_merge_file_data; eauto.
+  - eapply OriginsRef_keep; [apply osub_models; exact Hmb|exact TKb|exact OR2].
+Qed.
+
 
 End Rej.
